@@ -29,6 +29,12 @@ func allPatterns() []string {
 	return append(append([]string{}, goKeywords...), otherPatterns...)
 }
 
+// importNames: the package names the codegen / resolver templates reserve as imports, used as
+// argument names (position "arg-selector"). fmt, context and model are left out: the generated
+// resolver stubs themselves use those packages in the signature or the not-implemented body, and
+// package names are not among the naming patterns of the statement.
+var importNames = []string{"time", "io", "sync", "atomic", "bytes", "strconv", "errors", "embed", "gqlparser", "ast", "graphql", "introspection", "semaphore"}
+
 // Positions a name can take. The design's "type name" position is split by type kind because
 // every kind goes through different templates.
 var memberPositions = []string{"field", "arg", "inputfield", "enumvalue", "dirarg"}
@@ -246,6 +252,16 @@ func namingSchemaSlots(atoms []Atom) (string, []Slot) {
 		fmt.Fprintf(&b, "type AR { f(%s): String @goField(forceResolver: true) g(%s): Int }\n", strings.Join(l, ", "), strings.Join(l2, ", "))
 		q = append(q, "qar: AR", fmt.Sprintf("qargs(%s): String", strings.Join(l, ", ")))
 	}
+	// arguments named like the packages the templates import, typed so that a resolver body can
+	// select on them (time.V): the check rewrites the body of Qsel between the two generations
+	if as := names(byPos["arg-selector"]); len(as) > 0 {
+		var l []string
+		for _, nm := range as {
+			l = append(l, nm+": SelIn")
+		}
+		fmt.Fprintf(&b, "input SelIn { v: String }\n")
+		q = append(q, fmt.Sprintf("qsel(%s): String", strings.Join(l, ", ")))
+	}
 	if is := names(byPos["inputfield"]); len(is) > 0 {
 		var l []string
 		for i, nm := range is {
@@ -360,6 +376,11 @@ func packedNamingProjects(full bool) []NamingProject {
 		for _, pos := range append([]string{"type-object-resolver"}, memberPositions...) {
 			for _, p := range g {
 				atoms = append(atoms, Atom{pos, []string{p}})
+			}
+		}
+		if gi == 0 {
+			for _, p := range importNames {
+				atoms = append(atoms, Atom{"arg-selector", []string{p}})
 			}
 		}
 		out = append(out, NamingProject{fmt.Sprintf("naming-g%d-members+object", gi), atoms})
